@@ -71,17 +71,23 @@ func (e *emitter) wantTypeSet(in input, o Obs) {
 	}
 }
 
-// emitTypeSet writes cases_override_0.v and cases_params_0.v (coq/Corr/CorrC06.v: override_check, params_check).
+// emitTypeSet writes cases_override_0.v, cases_params_0.v (coq/Corr/CorrC06.v: override_check, params_check) and
+// cases_equality_0.v, cases_like_0.v (equality_check, like_check; generators in genhier.go).
 func (e *emitter) emitTypeSet(cfg *lib.Config, res *lib.Result) {
 	files := []struct {
-		name, typ, obl, expr string
-		codes                map[string]int
+		name, typ, obl, expr, model string
+		codes                       map[string]int
+		// extra: further observed fields after the class
+		extra func(o Obs) string
 	}{
-		{"override", "c06ocase", "override_model", "override_mismatches cases", overrideCodes},
-		{"params", "c06xcase", "params_model", "params_mismatches cases", paramsCodes},
+		{"override", "c06ocase", "override_model", "override_mismatches cases", "Model.ResolveObj", overrideCodes, nil},
+		{"params", "c06xcase", "params_model", "params_mismatches cases", "Model.ResolveObj", paramsCodes, nil},
+		{"equality", "c06qcase", "equality_model", "equality_mismatches cases", "Model.ResolveHier", equalityCodes,
+			func(o Obs) string { return " " + lib.GStr(o.Aux["including_parent"]) }},
+		{"like", "c06lcase", "like_model", "like_mismatches cases", "Model.ResolveHier", likeCodes, nil},
 	}
 	for _, f := range files {
-		cf := &lib.CasesFile{Imports: []string{"Model.Base", "Model.ResolveObj", "Corr.CorrC06"}, Typ: f.typ,
+		cf := &lib.CasesFile{Imports: []string{"Model.Base", f.model, "Corr.CorrC06"}, Typ: f.typ,
 			Obligations: map[string]string{f.obl: f.expr}}
 		for i, in := range e.tsIn {
 			c := tsIndex[in.bytes()]
@@ -90,7 +96,11 @@ func (e *emitter) emitTypeSet(cfg *lib.Config, res *lib.Result) {
 			}
 			cl := tsClass(e.tsObs[i], f.codes)
 			res.Count(fmt.Sprintf("corr.%s.class%d", f.name, cl))
-			cf.Add(fmt.Sprintf("%s %d%%nat", c.term, cl), in)
+			term := fmt.Sprintf("%s %d%%nat", c.term, cl)
+			if f.extra != nil {
+				term += f.extra(e.tsObs[i])
+			}
+			cf.Add(term, in)
 		}
 		if len(cf.Cases) > 0 {
 			res.CorrFiles = append(res.CorrFiles, cf.WriteTo(cfg.Out, "cases_"+f.name+"_0"))
